@@ -326,7 +326,7 @@ Proof.
       * destruct (N.of_nat (length (s_cur (c_sh c) :: g)) =? q_n q); apply Hgo; discriminate.
     + destruct (q_mode q) eqn:M.
       * apply Hsame; [right; reflexivity|discriminate].
-      * destruct g; apply Hsame; try discriminate; [right; reflexivity|left; reflexivity].
+      * apply Hsame; [left; reflexivity|discriminate].
       * apply Hsame; [left; reflexivity|discriminate].
 Qed.
 
